@@ -125,34 +125,45 @@ impl RdfPlanner {
         // Build the triple pattern for querying the store
         let pattern = self.build_triple_pattern(scan);
 
-        // Determine which columns are variables (and thus in output)
-        let mut columns = Vec::new();
+        // Determine which columns are variables (and thus in output). A variable that
+        // occurs in several positions (?x <p> ?x) is one column; the positions have to
+        // hold the same term
+        let mut columns: Vec<String> = Vec::new();
         let mut output_mask = [false, false, false, false]; // s, p, o, g
+        let mut first_position: Vec<usize> = Vec::new(); // position of columns[i]
+        let mut same_term: Vec<(usize, usize)> = Vec::new();
 
-        if let TripleComponent::Variable(name) = &scan.subject {
-            columns.push(name.clone());
-            output_mask[0] = true;
-        }
-        if let TripleComponent::Variable(name) = &scan.predicate {
-            columns.push(name.clone());
-            output_mask[1] = true;
-        }
-        if let TripleComponent::Variable(name) = &scan.object {
-            columns.push(name.clone());
-            output_mask[2] = true;
-        }
-        if let Some(TripleComponent::Variable(name)) = &scan.graph {
-            columns.push(name.clone());
-            output_mask[3] = true;
+        let positions = [
+            Some(&scan.subject),
+            Some(&scan.predicate),
+            Some(&scan.object),
+            scan.graph.as_ref(),
+        ];
+        for (position, component) in positions.iter().enumerate() {
+            if let Some(TripleComponent::Variable(name)) = component {
+                match columns.iter().position(|c| c == name) {
+                    // The graph position carries no term yet, nothing to compare there
+                    Some(i) if position < 3 => same_term.push((first_position[i], position)),
+                    Some(_) => {}
+                    None => {
+                        columns.push(name.clone());
+                        first_position.push(position);
+                        output_mask[position] = true;
+                    }
+                }
+            }
         }
 
         // Create the lazy scanning operator
-        let operator = Box::new(RdfTripleScanOperator::new(
-            Arc::clone(&self.store),
-            pattern,
-            output_mask,
-            self.chunk_size,
-        ));
+        let operator = Box::new(
+            RdfTripleScanOperator::new(
+                Arc::clone(&self.store),
+                pattern,
+                output_mask,
+                self.chunk_size,
+            )
+            .with_same_term(same_term),
+        );
 
         Ok((operator, columns))
     }
@@ -1644,6 +1655,9 @@ struct RdfTripleScanOperator {
     output_mask: [bool; 4],
     /// Chunk size for batching.
     chunk_size: usize,
+    /// Pairs of positions (0 = s, 1 = p, 2 = o) that one variable occupies: a triple
+    /// matches only if it has the same term in both.
+    same_term: Vec<(usize, usize)>,
     /// Cached matching triples (lazily populated).
     triples: Option<Vec<Arc<Triple>>>,
     /// Current position in the triples.
@@ -1662,15 +1676,37 @@ impl RdfTripleScanOperator {
             pattern,
             output_mask,
             chunk_size,
+            same_term: Vec::new(),
             triples: None,
             position: 0,
         }
     }
 
+    /// Requires the given pairs of positions to hold the same term.
+    fn with_same_term(mut self, same_term: Vec<(usize, usize)>) -> Self {
+        self.same_term = same_term;
+        self
+    }
+
     /// Lazily load matching triples on first access.
     fn ensure_triples(&mut self) {
         if self.triples.is_none() {
-            self.triples = Some(self.store.find(&self.pattern));
+            let mut triples = self.store.find(&self.pattern);
+            if !self.same_term.is_empty() {
+                fn term_at(triple: &Triple, position: usize) -> &Term {
+                    match position {
+                        0 => triple.subject(),
+                        1 => triple.predicate(),
+                        _ => triple.object(),
+                    }
+                }
+                triples.retain(|triple| {
+                    self.same_term
+                        .iter()
+                        .all(|&(a, b)| term_at(triple, a) == term_at(triple, b))
+                });
+            }
+            self.triples = Some(triples);
         }
     }
 
